@@ -1004,6 +1004,57 @@ func genCase(rt *rapid.T, small bool) *Case {
 	for i := 1; i < nReq; i++ {
 		c.Requests = append(c.Requests, gen.GenRequest(rt, &c.World, vo))
 	}
+	// Dynamic-operand policies: every evaluator that could carry per-node state (a parse cache, a memo) is applied to a
+	// request-dependent operand, so that goroutines evaluating different requests through the same compiled node really
+	// execute it (constant operands are folded away at compile time and never reach the evaluator).
+	for i := range c.Requests {
+		ctx := ir.Value{K: ir.KRecord}
+		for _, f := range c.Requests[i].Context.Fields {
+			switch f.K {
+			case "ipstr", "decstr", "dtstr", "durstr", "name", "n":
+			default:
+				ctx.Fields = append(ctx.Fields, f)
+			}
+		}
+		ctx.Fields = append(ctx.Fields,
+			ir.F("ipstr", ir.Str(gen.Pick(rt, []string{"127.0.0.1", "10.0.0.1", "::1", "ff02::1", "192.168.0.0/16", "nonsense"}, "dynip"))),
+			ir.F("decstr", ir.Str(gen.Pick(rt, []string{"1.0", "2.5", "-3.1415", "0.0001", "x"}, "dyndec"))),
+			ir.F("dtstr", ir.Str(gen.Pick(rt, []string{"2024-01-01", "1969-12-31T23:59:59Z", "2030-06-30T12:00:00.500+0100", "nope"}, "dyndt"))),
+			ir.F("durstr", ir.Str(gen.Pick(rt, []string{"1h", "-2d3ms", "0ms", "5m30s", "bad"}, "dyndur"))),
+			ir.F("name", ir.Str(gen.Pick(rt, []string{"a", "ab", "b", "", "a*"}, "dynname"))),
+			ir.F("n", ir.Long(int64(rapid.IntRange(-2, 2).Draw(rt, "dynn")))))
+		c.Requests[i].Context = ctx
+	}
+	c.World.Req = c.Requests[0]
+	{
+		C, P, R := ir.Var("context"), ir.Var("principal"), ir.Var("resource")
+		one := ir.Lit(ir.Long(1))
+		dyn := []*ir.Expr{
+			ir.Ext("isLoopback", ir.Ext("ip", ir.Access(C, "ipstr"))),
+			ir.Ext("isInRange", ir.Ext("ip", ir.Access(C, "ipstr")), ir.Ext("ip", ir.Lit(ir.Str("10.0.0.0/8")))),
+			ir.Ext("lessThan", ir.Ext("decimal", ir.Access(C, "decstr")), ir.Lit(ir.Decimal(20000))),
+			ir.Bin(ir.OpLt, ir.Ext("datetime", ir.Access(C, "dtstr")), ir.Lit(ir.Datetime(1900000000000))),
+			ir.Bin(ir.OpGt, ir.Ext("toHours", ir.Ext("duration", ir.Access(C, "durstr"))), ir.Lit(ir.Long(0))),
+			ir.Bin(ir.OpEq, ir.Ext("toDate", ir.Ext("datetime", ir.Access(C, "dtstr"))), ir.Ext("datetime", ir.Lit(ir.Str("2024-01-01")))),
+			ir.Like(ir.Access(C, "name"), []ir.PatElem{{Lit: "a"}, {Wild: true}}),
+			ir.Bin(ir.OpGt, ir.Bin(ir.OpMul, ir.Bin(ir.OpAdd, ir.Access(C, "n"), one), ir.Un(ir.OpNeg, ir.Access(C, "n"))), ir.Lit(ir.Long(-3))),
+			ir.Bin(ir.OpContains, ir.SetE(ir.Access(C, "n"), one), one),
+			ir.Bin(ir.OpContainsAny, ir.SetE(ir.Access(C, "n"), ir.Access(C, "name")), ir.SetE(one, ir.Lit(ir.Str("a")))),
+			ir.Bin(ir.OpEq, ir.RecE([]string{"k", "j"}, []*ir.Expr{ir.Access(C, "name"), ir.Access(C, "n")}), ir.Lit(ir.Rec(ir.F("j", ir.Long(1)), ir.F("k", ir.Str("a"))))),
+			ir.Bin(ir.OpIn, P, ir.SetE(R, ir.Lit(gen.EntityVal(rt)))),
+			ir.IsIn(P, gen.Pick(rt, gen.EntityTypes, "dynty"), R),
+			ir.Bin(ir.OpAnd, ir.Has(P, "a"), ir.Bin(ir.OpEq, ir.Access(P, "a"), ir.Access(C, "n"))),
+			ir.Bin(ir.OpHasTag, P, ir.Access(C, "name")),
+			ir.If(ir.Bin(ir.OpLt, ir.Access(C, "n"), one), ir.Bin(ir.OpEq, P, R), ir.Is(R, "T0")),
+		}
+		for i, e := range dyn {
+			p := ir.NewPolicy(i%3 != 0)
+			p.Conds = []ir.Cond{{When: true, Body: e}}
+			c.Policies = append(c.Policies, p)
+			c.IDs = append(c.IDs, fmt.Sprintf("dyn#%d", i))
+			c.FromText = append(c.FromText, i%2 == 0)
+		}
+	}
 	ents := func(label string, action bool) []ir.Value {
 		n := rapid.IntRange(1, 3).Draw(rt, label+"n")
 		var out []ir.Value
